@@ -43,10 +43,10 @@ def run(ck, tier, seed):
         ids = sorted({f["label"] for f in fm["feats"]} | {x for f in fm["feats"] for x in f["setlabels"]}) if fm else []
         name_path = os.path.join(tmp, font + ".name.hex")
         open(name_path, "w").write(feat.name_table_dual(ids).hex() if ids else "")
-        for rep in range(2 if q else 6):
+        for rep in range(2 if q else 12):
             trace = os.path.join(tmp, "%s.%d.ndjson" % (font, rep))
             nth = 8 if rep % 2 == 0 else 16
-            args = ["threads", os.path.join(corpus.F, font), tf_path, d, nth, 2 if q else 4, trace, seed + rep]
+            args = ["threads", os.path.join(corpus.F, font), tf_path, d, nth, 2 if q else 6, trace, seed + rep]
             if ids and rep % 2 == 1:
                 args.append(name_path)
             h = vlib.run_harness(exe, args, timeout=3000)
